@@ -27,7 +27,21 @@
      step), never calls Close on a run, and is a retrying consumer: when an inner Next fails the
      step reports that error, the items already taken from the run are kept, and the following
      step continues with the same run (no outer Next); a step that completes reports all items
-     taken from the run. *)
+     taken from the run;
+   * panics: a callback whose [failing] record has fail_panic = true panics at its k-th
+     invocation instead of returning the error, a scripted source panics at an EvPanic event
+     (its Next call is logged like every other, the event is consumed).  No combinator recovers:
+     the result of every Next on the way out is [Pan], and the state returned with it is what
+     the fields hold at that moment - filterStream/mapStream have pulled the item and lost it,
+     whileStream has stored it (item, has = true: the callback is asked again next time),
+     firstStream.x is decremented only after a successful inner Next, chunkStream.chunk,
+     peekable.curr/has, compactStream.prev/first, flattenStream.curr, joinStream.remaining,
+     runsStream.curr are as they were before the inner call.  The consumer (the harness)
+     recovers a panicking Next, records RPanic for the step and goes on; a panic inside the
+     Next of a run handed out by Runs is treated by the retrying consumer like an error (the
+     items taken so far are kept, the following step continues with the same run);
+   * reducers close by `defer s.Close()`: the Close also runs when a panic passes through, the
+     observation is RPanic (the harness recovers around the reducer call). *)
 From Juniper Require Import Common.Base Iter.Syntax Iter.Config Iter.ModelBase Iter.IterModel.
 
 Definition ctx_err : Z := -1.
@@ -54,6 +68,7 @@ Definition script_next (evs : list sevent) : res Z * list sevent :=
   | EvItem x :: t => (Item x, t)
   | EvTransient e :: t => (Err e, t)
   | EvFatal e :: _ => (Err e, evs)
+  | EvPanic :: t => (Pan, t)
   end.
 
 (* FromIterator/Chan (SSIter) and SScript look at the context first: expired => the context
@@ -92,7 +107,7 @@ Section Combinators.
         let '(o, s', ev) := nx s in
         match o with
         | Item x =>
-            if fails_now fl calls then (Err (fail_err fl), (S calls, s'), ev)
+            if fails_now fl calls then (fail_res fl, (S calls, s'), ev)
             else if pred_eval keep x then (Item x, (S calls, s'), ev)
             else after ev (sfilter n' keep fl (S calls) s')
         | _ => (pass o, (calls, s'), ev)
@@ -157,7 +172,7 @@ Section Combinators.
     let '(o, s', ev) := nx s in
     match o with
     | Item x =>
-        if fails_now fl calls then (Err (fail_err fl), (S calls, s'), ev)
+        if fails_now fl calls then (fail_res fl, (S calls, s'), ev)
         else (Item (fn_eval f x), (S calls, s'), ev)
     | _ => (pass o, (calls, s'), ev)
     end.
@@ -172,11 +187,12 @@ Section Combinators.
         else let '(o, s', ev) := nx s in
              match o with
              | Item x => (Item x, (x, true, s'), ev)
+             | Pan => (Pan, (item, false, s'), ev)          (* nothing was assigned *)
              | _ => (o, (0, false, s'), ev)
              end in
       match o with
       | Item _ =>
-          if fails_now fl calls then (Err (fail_err fl), (S calls, item1, has1, false, s1), ev)
+          if fails_now fl calls then (fail_res fl, (S calls, item1, has1, false, s1), ev)
           else if pred_eval f item1 then (Item item1, (S calls, item1, false, false, s1), ev)
           else (End, (S calls, item1, has1, true, s1), ev)
       | _ => (pass o, (calls, item1, has1, false, s1), ev)
@@ -409,17 +425,22 @@ with slinit (q : pl) : slst :=
 Definition sstep (live : bool) (s : sst) : ret Z sst := snext (S (ssize s)) live s.
 Definition slstep (live : bool) (q : slst) : ret (list Z) slst := slnext (S (slsize q)) live q.
 
-(* ---- reducers; [closes] = cfg says the reducer has `defer s.Close()` ---- *)
+(* ---- reducers ---- *)
 
-(* func Reduce without its defer *)
-Fixpoint sreduce_loop {A : Type} (n : nat) (live : bool) (f : A -> Z -> A) (acc : A) (s : sst)
-  : ret A sst :=
+(* func Reduce without its defer; the reduction function returns a value, an error or panics *)
+Fixpoint sreduce_loop {A : Type} (n : nat) (live : bool) (f : A -> Z -> cbres A) (acc : A)
+         (s : sst) : ret A sst :=
   match n with
   | O => (Out, s, [])
   | S n' =>
       let '(o, s', ev) := sstep live s in
       match o with
-      | Item x => after ev (sreduce_loop n' live f (f acc x) s')
+      | Item x =>
+          match f acc x with
+          | CbOk acc' => after ev (sreduce_loop n' live f acc' s')
+          | CbErr e => (Err e, s', ev)                     (* return acc, err *)
+          | CbPanic => (Pan, s', ev)
+          end
       | End => (Item acc, s', ev)
       | _ => (pass o, s', ev)
       end
@@ -429,12 +450,22 @@ Fixpoint sreduce_loop {A : Type} (n : nat) (live : bool) (f : A -> Z -> A) (acc 
 Definition deferred_close {A} (x : ret A sst) : ret A sst :=
   let '(o, s', ev) := x in (o, s', ev ++ sclose s').
 
-Definition sreduce {A : Type} (n : nat) (live : bool) (f : A -> Z -> A) (acc : A) (s : sst)
-  : ret A sst := deferred_close (sreduce_loop n live f acc s).
+(* the breaking variant: `s.Close()` written out before every return instead of the defer - a
+   panic passing through skips it *)
+Definition explicit_close {A} (x : ret A sst) : ret A sst :=
+  let '(o, s', ev) := x in
+  match o with Pan => (o, s', ev) | _ => (o, s', ev ++ sclose s') end.
+
+(* how the reducers that close do it in configuration [cfg] *)
+Definition reducer_close (cfg : config) {A} (x : ret A sst) : ret A sst :=
+  if cfg_defer_close cfg then deferred_close x else explicit_close x.
+
+Definition sreduce {A : Type} (cfg : config) (n : nat) (live : bool) (f : A -> Z -> cbres A)
+           (acc : A) (s : sst) : ret A sst := reducer_close cfg (sreduce_loop n live f acc s).
 
 (* func Collect: the same loop as Reduce with append *)
-Definition scollect (n : nat) (live : bool) (s : sst) : ret (list Z) sst :=
-  sreduce n live (fun out x => out ++ [x]) [] s.
+Definition scollect (cfg : config) (n : nat) (live : bool) (s : sst) : ret (list Z) sst :=
+  sreduce cfg n live (fun out x => CbOk (out ++ [x])) [] s.
 
 Fixpoint slast_loop (k : nat) (live : bool) (n : Z) (buf : list Z) (i : Z) (s : sst)
   : ret (list Z * Z) sst :=
@@ -455,9 +486,9 @@ Fixpoint slast_loop (k : nat) (live : bool) (n : Z) (buf : list Z) (i : Z) (s : 
   end.
 
 Definition slast (cfg : config) (k : nat) (live : bool) (n : Z) (s : sst) : ret (list Z) sst :=
-  deferred_close
+  reducer_close cfg
     (if cfg_last_guard cfg && (n <=? 0)
-     then let '(o, s', ev) := sreduce_loop k live (fun (u : unit) _ => u) tt s in
+     then let '(o, s', ev) := sreduce_loop k live (fun (u : unit) _ => CbOk u) tt s in
           match o with Item _ => (Item [], s', ev) | _ => (pass o, s', ev) end
      else if n <? 0 then (Pan, s, [])
      else let '(o, s', ev) := slast_loop k live n (zrepeat 0 n) 0 s in
@@ -466,7 +497,7 @@ Definition slast (cfg : config) (k : nat) (live : bool) (n : Z) (s : sst) : ret 
           | _ => (pass o, s', ev)
           end).
 
-(* func One: no Close today *)
+(* func One: had no Close before the repair *)
 Definition sone_body (live : bool) (s : sst) : ret (list Z) sst :=
   let '(o1, s1, ev1) := sstep live s in
   match o1 with
@@ -481,7 +512,7 @@ Definition sone_body (live : bool) (s : sst) : ret (list Z) sst :=
   | _ => (pass o1, s1, ev1)
   end.
 Definition sone (cfg : config) (live : bool) (s : sst) : ret (list Z) sst :=
-  if cfg_one_closes cfg then deferred_close (sone_body live s) else sone_body live s.
+  if cfg_one_closes cfg then reducer_close cfg (sone_body live s) else sone_body live s.
 
 (* ---- runners ---- *)
 Inductive srun_st := QZ (s : sst) | QL (q : slst).
@@ -515,11 +546,11 @@ Definition sred_fuel (s : sst) : nat := S (ssize s).
 Definition srun_reduce (cfg : config) (p : pz) (r : reducer) (live : bool) : robs * list sev :=
   let s := sinit p in
   match r with
-  | RCollect => let '(o, _, ev) := scollect (sred_fuel s) live s in (obs_val o, ev)
+  | RCollect => let '(o, _, ev) := scollect cfg (sred_fuel s) live s in (obs_val o, ev)
   | RLast n => let '(o, _, ev) := slast cfg (sred_fuel s) live n s in (obs_val o, ev)
   | ROne => let '(o, _, ev) := sone cfg live s in (obs_val o, ev)
-  | RSum => let '(o, _, ev) := sreduce (sred_fuel s) live Z.add 0 s in
-            (obs_val (match o with Item x => Item [x] | _ => pass o end), ev)
+  | RSum fl => let '(o, _, ev) := sreduce cfg (sred_fuel s) live (ssum_step fl) (O, 0) s in
+               (obs_val (match o with Item a => Item [snd a] | _ => pass o end), ev)
   | REqualSelf | REqual _ => (RBad, [])            (* package stream has no Equal *)
   end.
 
